@@ -213,6 +213,10 @@ class extract_visitor(NodeVisitor):
             self.visit(df)
 
         if not PY2:
+            for df in node.args.kw_defaults:
+                df and self.visit(df)
+            for a in getattr(node.args, 'posonlyargs', []):
+                a.annotation and self.visit(a.annotation)
             for a in node.args.args:
                 a.annotation and self.visit(a.annotation)
             for kw in node.args.kwonlyargs:
@@ -237,6 +241,10 @@ class extract_visitor(NodeVisitor):
             self.visit(d)
 
         if not PY2:
+            for d in node.args.kw_defaults:
+                d and self.visit(d)
+            for a in getattr(node.args, 'posonlyargs', []):
+                a.annotation and self.visit(a.annotation)
             for a in node.args.args:
                 a.annotation and self.visit(a.annotation)
             for kw in node.args.kwonlyargs:
@@ -251,6 +259,8 @@ class extract_visitor(NodeVisitor):
         cur = self.flow
         self.visit_in_flow(node.decorator_list, cur)
         self.visit_in_flow(node.bases, cur)
+        for kw in getattr(node, 'keywords', []):
+            self.visit_in_flow(kw.value, cur)
         scope = ClassScope(cur.scope, node, top=self.top)
         cur.add_name(scope)  # type: ignore[arg-type]  # TODO
         self.visit_in_flow(node.body, scope.flow)
